@@ -14,7 +14,10 @@
 (***************************************************************************)
 EXTENDS Shapes, TLC, Json, IOUtils
 
-CONSTANT N                                  \* operands live on the vertex grid {0,4,..,4N}^2
+CONSTANT N,                                 \* operands live on the vertex grid {0,4,..,4N}^2
+         CacheInVerdict                     \* TRUE: a change of the cached graph (hook H4) rejects the history (self-test, advisory run);
+                                            \* FALSE: only the answers are judged - the property speaks about answers, and an implementation
+                                            \* may legitimately complete its cache lazily
 F == FineOf(N)
 Rec == ndJsonDeserialize(IOEnv.TRACE)
 
@@ -41,8 +44,8 @@ RelateCall(e) ==
     \* ... and, where the specification knows the true matrix (operands in the domain of C01), that matrix
     /\ InDomain(Plain(e.a)) /\ InDomain(Plain(e.b)) => e.im = DE9IM(Plain(e.a), Plain(e.b), F)
     \* CacheUnchanged: the cached graph after the call is the graph built by Prepare
-    /\ e.a.k = "prep" => e.fpa = prep[e.a.h].fp
-    /\ e.b.k = "prep" => e.fpb = prep[e.b.h].fp
+    /\ CacheInVerdict /\ e.a.k = "prep" => e.fpa = prep[e.a.h].fp
+    /\ CacheInVerdict /\ e.b.k = "prep" => e.fpb = prep[e.b.h].fp
     /\ prep' = prep
 Reset == prep' = NoHandles
 
